@@ -23,6 +23,24 @@ def sync_jobs(mode, profiles=("dev",)):
 
 
 PROPS = {
+    "C19": {
+        "module": "FBV.Props.C19",
+        "theorems": ["FBV.C19.esc_printable", "FBV.C19.escape_printable", "FBV.C19.esc_identity", "FBV.C19.escape_append",
+                     "FBV.C19.escapeM_eq", "FBV.C19.decode1_esc", "FBV.C19.decode1_append", "FBV.C19.unescape_escape",
+                     "FBV.C19.escape_injective", "FBV.C19.method_eq", "FBV.C19.debug_contains"],
+        "jobs": sync_jobs("es"),
+        "tie": "T3 exhaustive finite domain (all 256 bytes, all 65,536 pairs) + random strings + method/Debug on buffer states",
+        "rule": ("ES: the empty string, every single byte, every pair of bytes (exhaustive), seeded random strings <=200 bytes over all 256 values; "
+                 "EB: escape_ascii() and Debug on every (mem, ri, wi) state for SIZE<=3 over {a,LF,\",0x80,0xff,\\} plus states at SIZE 255/4096; "
+                 "distinct = distinct input / state; non-trivial = non-empty input / non-empty buffer"),
+        "exhaustive": True,
+        "level_text": ("Kernel-checked: every output byte is printable ASCII and printable bytes other than backslash/quotes map to themselves "
+                       "(kernel evaluation over all 256 byte values, lifted to UInt8), escape(a++b)=escape(a)++escape(b), the Rust loop's unwrap "
+                       "cannot fail (never panics), a decoder recovers the input from the output for strings of every length (hence injective). "
+                       "The per-byte table esc is core::ascii::escape_default as modelled from its source; it is tied to the real function on all "
+                       "256 bytes and all 65,536 pairs on every run; the method and Debug forms are compared on buffer states."),
+        "trusted_extra": ["core::ascii::escape_default modelled by hand (tied exhaustively on every run)"],
+    },
     "C05": {
         "module": "FBV.Props.C05",
         "theorems": ["FBV.C05.line_none_iff", "FBV.C05.line_some", "FBV.C05.line_prefixDet", "FBV.C05.line_minimal", "FBV.C05.line_ok",
